@@ -1453,3 +1453,112 @@ Proof.
   - apply (Empty o). apply Hreg. lia.
   - apply Hout. apply Hreg in Hi. lia.
 Qed.
+
+(** * Row-major order: the element ids a slice delivers *)
+
+Lemma zseq_shift : forall a n, zseq a n = map (fun k => a + k) (zseq 0 n).
+Proof. intros. unfold zseq. rewrite map_map. apply map_ext. intro k. lia. Qed.
+
+Lemma zseq_succ : forall n, 0 <= n -> zseq 0 (n + 1) = zseq 0 n ++ [n].
+Proof.
+  intros n Hn. rewrite zseq_app by lia. f_equal. unfold zseq. change (Z.to_nat 1) with 1%nat. cbn [seq map].
+  f_equal. lia.
+Qed.
+
+Lemma zrange_split : forall c P, 0 <= P ->
+  zseq 0 (Z.of_nat c * P) = flat_map (fun x => map (fun k => x * P + k) (zseq 0 P)) (zseq 0 (Z.of_nat c)).
+Proof.
+  induction c as [|c IH]; intros P HP.
+  - reflexivity.
+  - rewrite Nat2Z.inj_succ. unfold Z.succ. rewrite zseq_succ by lia. rewrite flat_map_app. cbn [flat_map]. rewrite app_nil_r.
+    rewrite <- IH by assumption.
+    replace ((Z.of_nat c + 1) * P) with (Z.of_nat c * P + P) by lia.
+    rewrite zseq_app by lia. f_equal. cbn [Z.add]. apply zseq_shift.
+Qed.
+
+Lemma flat_map_ext_in2 : forall {A B} (f g : A -> list B) l, (forall x, In x l -> f x = g x) -> flat_map f l = flat_map g l.
+Proof.
+  induction l as [|x l IH]; intro H; [reflexivity|]. cbn [flat_map]. rewrite (H x) by (left; reflexivity).
+  rewrite IH by (intros y Hy; apply H; right; exact Hy). reflexivity.
+Qed.
+
+Lemma map_flat_map : forall {A B C} (g : B -> C) (f : A -> list B) l, map g (flat_map f l) = flat_map (fun x => map g (f x)) l.
+Proof. induction l as [|x l IH]; [reflexivity|]. cbn [flat_map]. rewrite map_app, IH. reflexivity. Qed.
+
+(** the indices of a box in the order of the flat position = the product of the index ranges, first dimension slowest *)
+Lemma unravel_cart : forall cnt, shape_ok cnt -> map (unravel cnt) (zseq 0 (prod cnt)) = cart (map (zseq 0) cnt).
+Proof.
+  induction cnt as [|c r IH]; intro Hok.
+  - reflexivity.
+  - apply shape_ok_cons in Hok. destruct Hok as [Hc Hr]. pose proof (prod_nonneg r Hr) as HP.
+    cbn [prod map cart]. rewrite <- (IH Hr).
+    replace (c * prod r) with (Z.of_nat (Z.to_nat c) * prod r) by lia.
+    rewrite zrange_split by assumption. rewrite Z2Nat.id by assumption.
+    rewrite map_flat_map. apply flat_map_ext_in2. intros x Hx. apply zseq_In in Hx.
+    rewrite !map_map. apply map_ext_in. intros k Hk. apply zseq_In in Hk.
+    cbn [unravel]. f_equal.
+    + rewrite Z.div_add_l by lia. rewrite Z.div_small by lia. lia.
+    + f_equal. rewrite Z.add_comm, Z.mod_add by lia. apply Z.mod_small. lia.
+Qed.
+
+Lemma tab_cart : forall {A} cnt (f : list Z -> A), shape_ok cnt -> tab cnt f = map f (cart (map (zseq 0) cnt)).
+Proof.
+  intros A cnt f Hok. rewrite <- unravel_cart by assumption. rewrite map_map. unfold tab, zseq. rewrite map_map.
+  apply map_ext. intro k. reflexivity.
+Qed.
+
+Lemma cart_shift : forall off cnt, List.length off = List.length cnt ->
+  cart (map2 zseq off cnt) = map (vadd off) (cart (map (zseq 0) cnt)).
+Proof.
+  induction off as [|o off IH]; destruct cnt as [|c cnt]; cbn [List.length]; intro L; try lia.
+  - reflexivity.
+  - cbn [map2 map cart]. rewrite (IH cnt) by lia. rewrite (zseq_shift o c).
+    rewrite map_flat_map. rewrite flat_map_concat_map, map_map, <- flat_map_concat_map.
+    apply flat_map_ext_in2. intros x _. rewrite !map_map. apply map_ext. intro r. reflexivity.
+Qed.
+
+(** the element ids a slice of the test array delivers are the specification's ids, in the same order *)
+Theorem box_ids : forall shape off cnt, shape_ok shape -> fits shape off cnt = true ->
+  tab cnt (fun r => get (id_array shape) (vadd off r)) = map VI (spec_ids shape (box_lists off cnt)).
+Proof.
+  intros shape off cnt Hok F. destruct (fits_lengths _ _ _ F) as [L1 L2].
+  pose proof (fits_shape_ok _ _ _ F) as Hc.
+  unfold spec_ids, box_lists. rewrite cart_shift by lia. rewrite !map_map.
+  rewrite tab_cart by assumption. apply map_ext_in. intros r Hr.
+  assert (IB : in_box cnt r = true).
+  { rewrite <- unravel_cart in Hr by assumption. apply in_map_iff in Hr. destruct Hr as (k & <- & Hk).
+    apply zseq_In in Hk. apply unravel_in_box; [assumption | lia]. }
+  unfold get, id_array. cbn [a_shape a_cells zero a_ty].
+  apply (tab_at shape (fun i => VI (ravel shape i)) (vadd off r)). eapply fits_in_box; eassumption.
+Qed.
+
+Lemma fits_self : forall w, shape_ok w -> fits w (repeat 0 (List.length w)) w = true.
+Proof.
+  induction w as [|x w IH]; intro H; [reflexivity|]. apply shape_ok_cons in H. destruct H as [Hx Hw].
+  cbn [List.length repeat fits]. rewrite (IH Hw), andb_true_r. lia.
+Qed.
+
+(** the complete path of the drivers: dataSlice, then DataView::getData of the whole view, on the array that holds
+    its own flat indices, delivers the specification's element ids in the specification's (row-major) order *)
+Theorem slice_read_ids : forall B dims shape start end_ units rm v,
+  view_check_wraps B = false ->
+  shape_ok shape -> all_u64 shape -> Forall (fun s => s < u64max) shape -> (List.length shape <= 32)%nat ->
+  data_slice B dims shape start end_ units rm = Ok v ->
+  fits shape (v_offset v) (v_count v) = true ->
+  slice_read B dims (id_array shape) start end_ units rm =
+  Ok (v_count v, map VI (spec_ids shape (box_lists (v_offset v) (v_count v)))).
+Proof.
+  intros B dims shape start end_ units rm v HB Hok Hu Hm Hr H F.
+  unfold slice_read. change (a_shape (id_array shape)) with shape. rewrite H. cbn [bind view_extent].
+  destruct (fits_lengths _ _ _ F) as [L1 L2]. pose proof (fits_shape_ok _ _ _ F) as Hc.
+  destruct (fits_u64 _ _ _ Hu F) as [Uo Uc].
+  assert (OK : view_ok (id_array shape) v).
+  { constructor; try assumption. split; [assumption | apply tab_length]. }
+  assert (RC : real_count v (v_count v) = v_count v) by (unfold real_count; destruct (v_count v); reflexivity).
+  assert (IN : inside_window v (v_count v) [] = true).
+  { unfold inside_window. rewrite RC. cbn [real_offset]. apply fits_self. assumption. }
+  destruct (view_read_inside B (id_array shape) v (v_count v) [] HB OK Uc ltac:(constructor) IN) as [_ E].
+  unfold view_extent. rewrite E. cbn [bind]. rewrite RC. cbn [real_offset].
+  replace (List.length (v_count v)) with (List.length (v_offset v)) by lia. rewrite vadd_zeros.
+  rewrite box_ids by assumption. reflexivity.
+Qed.
